@@ -87,6 +87,8 @@ def object_kind(a):
         return "numeric"
     if isinstance(a, (E.BasicFunctionCall, E.BasicRunCall)):
         return "numeric"   # float(display.hfore) / FLOAT(...)
+    if isinstance(a, E.BasicOpExp):
+        return "numeric"
     if hasattr(a, "is_str_expr"):
         return "string" if a.is_str_expr else "numeric"
     return None
@@ -96,17 +98,17 @@ def kinds_python_side():
     """kinds of the arguments the emitters pass, against the PARAM kinds"""
     sig = ecbsig.parse()
     out = []
-    for rule, tmpl, proc, binding in ROWS + FUNC_ROWS:
-        oid = "kinds/%s/%s" % (proc, tmpl.replace("{e}", "e").replace("{s}", "s"))
+    for rule, tmpl, proc, binding, wrap in [r + (None,) for r in ROWS + FUNC_ROWS] + [r + ("unary",) for r in ROWS + FUNC_ROWS]:
+        oid = "kinds/%s/%s%s" % (proc, tmpl.replace("{e}", "e").replace("{s}", "s"), " [unary operands]" if wrap else "")
 
-        def run(rule=rule, tmpl=tmpl, proc=proc, binding=binding, oid=oid):
+        def run(rule=rule, tmpl=tmpl, proc=proc, binding=binding, oid=oid, wrap=wrap):
             params = sig[proc]["params"]
             kinds, k = {}, 0
             for mm in re.finditer(r"\{(e|s)\}", tmpl):
                 k += 1
                 kinds["E%d" % k] = "string" if mm.group(1) == "s" else "numeric"
             opaque.reset()
-            built, n = f2.build(rule, f2.fill(tmpl))
+            built, n = f2.build(rule, f2.fill(tmpl), wrap=wrap)
             if isinstance(built, E.BasicFunctionalExpression):
                 kinds["R"] = "string" if built.is_str_expr else "numeric"
                 nargs = len(built._args.exp_list) + 1
@@ -233,6 +235,37 @@ def library_calls():
     return out
 
 
+def sized_strings_stay_sized():
+    """a string whose capacity follows the configured size (`string<<>>`) is passed by reference only to parameters that
+    follow it too (else the callee sees a 32-byte string)"""
+    sig = ecbsig.parse()
+    lower = {k.lower(): k for k in sig}
+    out = []
+    for pname, proc in sig.items():
+        types = {p.lower(): t.lower() for p, t, _ in proc["params"]}
+        for raw in proc["body"]:
+            m = re.match(r"(?i)^\s*dim\s+(.*)$", raw.strip())
+            if m:
+                for group in m.group(1).split(";"):
+                    if ":" in group:
+                        names, typ = group.rsplit(":", 1)
+                        for nme in names.split(","):
+                            types[re.sub(r"\(.*\)", "", nme).strip().lower()] = typ.strip().lower()
+        for k, (callee, argtext) in enumerate(proc["runs"]):
+            if callee.lower() not in lower:
+                continue
+            params = sig[lower[callee.lower()]]["params"]
+            args = split_args(argtext)
+            if len(args) != len(params):
+                continue
+            bad = []
+            for a, (pn, pt, pk) in zip(args, params):
+                if re.match(r"^[A-Za-z_]\w*\$?$", a.strip()) and "<<>>" in types.get(a.strip().lower(), "") and "<<>>" not in pt:
+                    bad.append("%s (string<<>>) is passed to parameter %s: %s" % (a.strip(), pn, pt))
+            out.append(ob("library-sizes/%s#%d->%s" % (pname, k, callee), not bad, "sized strings are received by sized parameters", bad or "ok"))
+    return out
+
+
 def record_types():
     sig = ecbsig.parse()
     out = []
@@ -255,7 +288,7 @@ def record_types():
 
 
 def obligations():
-    return existence() + kinds_python_side() + library_calls() + record_types()
+    return existence() + kinds_python_side() + library_calls() + sized_strings_stay_sized() + record_types()
 
 
 RULE_KINDS = [
